@@ -198,6 +198,13 @@ _asn1f_foreach_unparsed(arg_t *arg, const asn1p_constraint_t *ct,
     case ACT_CA_CSV:    /* , */
         break;
     case ACT_EL_VALUE:
+        /* A set of a single object is not a union */
+        if(ct->value && ct->value->type == ATV_UNPARSED && process
+           && process(ct->value->value.string.buf + 1,
+                      ct->value->value.string.size - 2, keyp)
+                  != 0) {
+            return -1;
+        }
         return 0;
     }
 
